@@ -18,7 +18,8 @@
 const char* const PROPERTY_ID = "C15";
 const size_t PROPERTY_MAXLEN = 120;
 
-void property_init() { vf::install_ada_idna_plugin(); }
+namespace { void load_wpt(); }
+void property_init() { vf::install_ada_idna_plugin(); load_wpt(); }
 
 namespace {
 using provider = ada::url_pattern_regex::std_regex_provider;
@@ -176,6 +177,149 @@ std::string getter(const ada::url_pattern<provider>& p, int comp) {
   }
 }
 
+// ---- (D) WPT urlpatterntestdata replay --------------------------------------------------
+struct WptArg {
+  char kind = 'N';                       // N none, S string, I init dictionary
+  std::string s;
+  std::optional<std::string> f[9];       // 8 components + baseURL
+};
+struct WptRec {
+  int idx = 0;
+  WptArg pat, in;
+  std::optional<std::string> patbase, inbase;
+  bool icase = false;
+  std::vector<std::string> empty;
+  bool eobj_error = false;
+  std::optional<std::string> eobj[8];
+  std::string em_kind;                   // error | null | absent | obj
+  struct CompExp { bool given = false; std::string input; std::map<std::string, std::optional<std::string>> groups; } em[8];
+  std::string line;
+};
+std::vector<WptRec>& wpt() { static auto* v = new std::vector<WptRec>; return *v; }
+
+std::string unhex(const std::string& h) {
+  std::string o;
+  for (size_t i = 0; i + 1 < h.size(); i += 2) o.push_back((char)strtol(h.substr(i, 2).c_str(), nullptr, 16));
+  return o;
+}
+std::vector<std::string> split(const std::string& s, char sep) {
+  std::vector<std::string> f;
+  size_t p = 0;
+  for (;;) { size_t t = s.find(sep, p); f.push_back(s.substr(p, t == std::string::npos ? std::string::npos : t - p)); if (t == std::string::npos) break; p = t + 1; }
+  return f;
+}
+std::optional<std::string> optfield(const std::string& x) { if (x == "-") return std::nullopt; return unhex(x.substr(1)); }
+WptArg parse_arg(const std::string& x) {
+  WptArg a;
+  a.kind = x[0];
+  if (a.kind == 'S') a.s = unhex(x.substr(3));
+  if (a.kind == 'I') { auto f = split(x.substr(2), ','); for (size_t i = 0; i < 9 && i < f.size(); i++) a.f[i] = optfield(f[i]); }
+  return a;
+}
+void load_wpt() {
+  std::ifstream in(vf::data_dir() + "/wpt/urlpattern.tsv");
+  std::string line;
+  while (std::getline(in, line)) {
+    if (line.empty() || line[0] == '#') continue;
+    auto f = split(line, '\t');
+    if (f.size() < 9) continue;
+    WptRec r;
+    r.line = line;
+    r.idx = atoi(f[0].c_str());
+    r.pat = parse_arg(f[1]);
+    r.patbase = optfield(f[2]);
+    r.icase = f[3] == "1";
+    if (f[4] != "-") r.empty = split(f[4], ',');
+    if (f[5] == "error") r.eobj_error = true; else { auto e = split(f[5], ','); for (size_t i = 0; i < 8 && i < e.size(); i++) r.eobj[i] = optfield(e[i]); }
+    r.in = parse_arg(f[6]);
+    r.inbase = optfield(f[7]);
+    if (f[8] == "error" || f[8] == "null" || f[8] == "absent") r.em_kind = f[8];
+    else {
+      r.em_kind = "obj";
+      auto parts = split(f[8], ';');
+      for (size_t i = 0; i < 8 && i < parts.size(); i++) {
+        if (parts[i] == "-") continue;
+        r.em[i].given = true;
+        size_t colon = parts[i].find(':');
+        r.em[i].input = unhex(parts[i].substr(1, colon - 1));
+        std::string g = parts[i].substr(colon + 1);
+        if (!g.empty()) for (auto& kv : split(g, ',')) { size_t eq = kv.find('=', 1); std::string k = unhex(kv.substr(1, eq - 1)); std::string v = kv.substr(eq + 1); r.em[i].groups[k] = v == "~" ? std::nullopt : std::optional<std::string>(unhex(v.substr(1))); }
+      }
+    }
+    wpt().push_back(std::move(r));
+  }
+}
+
+ada::url_pattern_init to_init(const WptArg& a) {
+  ada::url_pattern_init i;
+  i.protocol = a.f[0]; i.username = a.f[1]; i.password = a.f[2]; i.hostname = a.f[3]; i.port = a.f[4]; i.pathname = a.f[5]; i.search = a.f[6]; i.hash = a.f[7]; i.base_url = a.f[8];
+  return i;
+}
+
+std::string getter(const ada::url_pattern<provider>& p, int comp);
+
+void replay_wpt(const WptRec& r, vf::Case& c) {
+  c.hash = vf::fnv1a(r.line, 0xD);
+  c.nontrivial = true;
+  if (c.want_render) c.render = "WPT urlpatterntestdata record #" + std::to_string(r.idx);
+  VF_TAG("wpt_vector");
+  std::string w = "WPT urlpatterntestdata record #" + std::to_string(r.idx) + ": ";
+  ada::url_pattern_options opts;
+  opts.ignore_case = r.icase;
+  std::string_view pb = r.patbase ? std::string_view(*r.patbase) : std::string_view();
+  auto pat = r.pat.kind == 'S' ? ada::parse_url_pattern<provider>(std::string_view(r.pat.s), r.patbase ? &pb : nullptr, &opts)
+                               : ada::parse_url_pattern<provider>(to_init(r.pat), r.patbase ? &pb : nullptr, &opts);
+  if (r.eobj_error) { if (pat) c.fail(w + "construction succeeds but the vector expects a TypeError"); return; }
+  if (!pat) return c.fail(w + "construction fails but the vector expects a pattern");
+  // expected pattern strings, computed as the WPT harness (urlpatterntests.js) does
+  ref::Url base;
+  bool have_base = false;
+  if (r.pat.kind == 'I' && r.pat.f[8] && !r.pat.f[8]->empty()) have_base = ref::parse(*r.pat.f[8], nullptr, base);
+  else if (r.patbase) have_base = ref::parse(*r.patbase, nullptr, base);
+  static const std::vector<std::vector<int>> earlier = {{}, {}, {}, {PROTOCOL}, {PROTOCOL, HOSTNAME}, {PROTOCOL, HOSTNAME, PORT}, {PROTOCOL, HOSTNAME, PORT, PATHNAME}, {PROTOCOL, HOSTNAME, PORT, PATHNAME, SEARCH}};
+  for (int comp = 0; comp < NCOMP; comp++) {
+    std::string expected;
+    bool listed_empty = std::find(r.empty.begin(), r.empty.end(), comp_name(comp)) != r.empty.end();
+    if (r.eobj[comp]) expected = *r.eobj[comp];
+    else if (listed_empty) expected = "";
+    else if (r.pat.kind == 'I' && r.pat.f[comp] && !r.pat.f[comp]->empty()) expected = *r.pat.f[comp];
+    else if (r.pat.kind == 'I' && std::any_of(earlier[comp].begin(), earlier[comp].end(), [&](int e) { return r.pat.f[e].has_value(); })) expected = "*";
+    else if (have_base && comp != USERNAME && comp != PASSWORD) {
+      switch (comp) {
+        case PROTOCOL: expected = base.scheme; break;
+        case HOSTNAME: expected = ref::hostname(base); break;
+        case PORT: expected = ref::port(base); break;
+        case PATHNAME: expected = ref::pathname(base); break;
+        case SEARCH: { std::string s = ref::search(base); expected = s.empty() ? s : s.substr(1); break; }
+        default: { std::string s = ref::hash(base); expected = s.empty() ? s : s.substr(1); break; }
+      }
+    } else expected = "*";
+    if (getter(*pat, comp) != expected) return c.fail(w + comp_name(comp) + " pattern string is \"" + vf::show(getter(*pat, comp)) + "\" but the vector expects \"" + vf::show(expected) + "\"");
+  }
+  if (r.em_kind == "absent") return;
+  std::string_view ib = r.inbase ? std::string_view(*r.inbase) : std::string_view();
+  ada::url_pattern_input input = r.in.kind == 'S' ? ada::url_pattern_input(std::string_view(r.in.s)) : ada::url_pattern_input(to_init(r.in));
+  auto t = pat->test(input, r.inbase ? &ib : nullptr);
+  auto e = pat->exec(input, r.inbase ? &ib : nullptr);
+  if (r.em_kind == "error") { if (t || e) c.fail(w + "test/exec succeed but the vector expects a TypeError"); return; }
+  if (!t || !e) return c.fail(w + "test/exec report an error but the vector expects " + (r.em_kind == "null" ? "null" : "a match"));
+  bool want = r.em_kind == "obj";
+  if (*t != want) return c.fail(w + "test() = " + std::to_string(*t) + " but the vector expects " + std::to_string(want));
+  if (e->has_value() != want) return c.fail(w + "exec() " + (e->has_value() ? "matches" : "returns null") + " but the vector expects " + (want ? "a match" : "null"));
+  if (!want) return;
+  const ada::url_pattern_result& res = **e;
+  const ada::url_pattern_component_result* got[8] = {&res.protocol, &res.username, &res.password, &res.hostname, &res.port, &res.pathname, &res.search, &res.hash};
+  for (int comp = 0; comp < NCOMP; comp++) {
+    std::string exp_input;
+    std::map<std::string, std::optional<std::string>> exp_groups;
+    if (r.em[comp].given) { exp_input = r.em[comp].input; exp_groups = r.em[comp].groups; }
+    else if (std::find(r.empty.begin(), r.empty.end(), comp_name(comp)) == r.empty.end()) exp_groups["0"] = "";
+    if (got[comp]->input != exp_input) return c.fail(w + "match." + comp_name(comp) + ".input = \"" + vf::show(got[comp]->input) + "\" but the vector expects \"" + vf::show(exp_input) + "\"");
+    std::map<std::string, std::optional<std::string>> g(got[comp]->groups.begin(), got[comp]->groups.end());
+    if (g != exp_groups) return c.fail(w + "match." + comp_name(comp) + ".groups differ from the vector");
+  }
+}
+
 void check_value(int comp, const std::string& v, const std::string& protocol, vf::Case& c) {
   c.hash = vf::fnv1a(v, vf::fnv1a(protocol, (uint64_t)comp + 0x15));
   if (c.want_render) c.render = std::string("canonicalize ") + comp_name(comp) + " \"" + vf::show(v) + "\"" + (protocol.empty() ? "" : " with protocol \"" + protocol + "\"");
@@ -262,6 +406,11 @@ void run_case(const uint8_t* data, size_t size, vf::Case& c) {
     VF_TAG("enumerated_cell");
     return check_value(comp, v, "", c);
   }
+  if (mode == 0xFD) {  // (D) one WPT urlpatterntestdata record
+    uint16_t i = b.u16();
+    if (wpt().empty()) return;
+    return replay_wpt(wpt()[i % wpt().size()], c);
+  }
   if (mode == 0xFC) {  // raw: component, protocol (length-prefixed), value = rest; saved regression inputs
     int comp = b.u8() % NCOMP;
     std::string protocol = b.raw(16);
@@ -321,5 +470,7 @@ bool property_enumerate(const vf::EmitFn& emit) {
       std::vector<uint8_t> v = {0xFE, (uint8_t)comp, (uint8_t)cp, (uint8_t)(cp >> 8), 0, 0};
       emit(v);
     }
+  // (D) every engine-independent WPT vector
+  for (size_t i = 0; i < wpt().size(); i++) emit({0xFD, (uint8_t)i, (uint8_t)(i >> 8)});
   return true;
 }
